@@ -700,6 +700,10 @@ def _impl_multi(case):
             res = [1, flat.classify_exc(ex)]
         if asy and tr.extensions.asyncio.AsyncMachine.async_tasks:
             order_ok = 0          # the task table must be empty between calls
+        if asy and case['queued'] == 'model':
+            qs = list(machine._transition_queue_dict.values())
+            if len(set(id(q) for q in qs)) != len(qs) or any(len(q) for q in qs):
+                order_ok = 0      # every model has its OWN queue, empty between calls (models are independent)
         out.append(dict(items=world.items, result=res, world=observe(), order_ok=order_ok))
     return [1, w0, out]
 
@@ -910,7 +914,8 @@ def oracle(case, obs):
         pm, pper = prev[0], prev[1]
         k = o[0]
         if not order_ok:
-            return 'async dispatch: first items not in registration order, or task table not empty'
+            return ('async dispatch: first items not in registration order, or task table not empty, or the per-model '
+                    'queues (queued=\'model\') are not one empty queue per model')
         if k == 'trigger':
             if any(it[2] != o[1] for it in items):
                 return 'frame: a callback ran on behalf of another model'
